@@ -38,7 +38,16 @@ def generate(seed, tier):
     case = {"seed": seed, "q": rng.choice([0.0, 0.1, 0.4]), "mode": mode, "K": K, "sut_seed": rng.choice([0, 0, 1, rng.randint(0, 10**6), rng.randint(0, 10**6), rng.randint(0, 10**6), rng.randint(0, 10**6)]),
             "burn_in": rng.randint(0, 5), "thin": rng.choice([0, 1, 1, 2, 3]), "n_samples": rng.randint(1, 4 if tier == "quick" else 8)}
     if mode == "initial":
-        spec = _gen.rand_hypergraph_spec(rng, nmin=3, nmax=8, emin=2, emax=9, smin=2, smax=5)
+        if rng.random() < 0.07:
+            # a large input: 23-40 nodes and one or two hyperedges of 12 to N-1 nodes (binomial coefficients beyond 2**63)
+            spec = _gen.rand_hypergraph_spec(rng, nmin=23, nmax=40, emin=3, emax=8, smin=2, smax=5)
+            for _ in range(rng.randint(1, 2)):
+                e = rng.sample(spec["nodes"], rng.randint(12, len(spec["nodes"]) - 1))
+                if all(set(e) != set(f) for f in spec["edges"]):
+                    spec["edges"].insert(rng.randrange(len(spec["edges"]) + 1), e)
+            case["large"] = True
+        else:
+            spec = _gen.rand_hypergraph_spec(rng, nmin=3, nmax=8, emin=2, emax=9, smin=2, smax=5)
         N = len(spec["nodes"])
         case["spec"] = spec
     else:
@@ -65,6 +74,15 @@ def generate(seed, tier):
         # size sequence first, then a degree sequence with the same total: realisable (from an actual
         # hypergraph) in half of the runs, merely total-matching in the other half
         dim = {}
+        if rng.random() < 0.07:
+            N = case["N"] = rng.randint(23, 40)
+            case["u"] = [[round(scale * (0.1 + rng.random()), 3) for _ in range(K)] for _ in range(N)]
+            case.pop("block_structured", None)
+            if len(case["w"]) != K:
+                K = case["K"] = len(case["w"])
+                case["u"] = [[round(scale * (0.1 + rng.random()), 3) for _ in range(K)] for _ in range(N)]
+            dim[rng.randint(12, N - 1)] = 1
+            case["large"] = True
         for _ in range(rng.randint(2, 6)):
             s = rng.randint(2, min(N, 4))
             dim[s] = dim.get(s, 0) + 1
